@@ -28,10 +28,10 @@ func (c18) Rule() string {
 func (c18) Plan(tier string) []core.Segment {
 	return []core.Segment{
 		{Gen: "spec", Count: gen.CorpusSize(), Exhaustive: true},
-		{Gen: "lines", Profile: "default", Count: scale(tier, 60_000, 600_000)},
-		{Gen: "soup", Profile: "default", Count: scale(tier, 40_000, 400_000)},
-		{Gen: "soup", Profile: "inline", Count: scale(tier, 30_000, 300_000)},
-		{Gen: "specmut", Count: scale(tier, 40_000, 400_000)},
+		{Gen: "lines", Profile: "default", Count: scale(tier, 200_000, 1_200_000)},
+		{Gen: "soup", Profile: "default", Count: scale(tier, 120_000, 800_000)},
+		{Gen: "soup", Profile: "inline", Count: scale(tier, 90_000, 600_000)},
+		{Gen: "specmut", Count: scale(tier, 120_000, 800_000)},
 		{Gen: "patho", Count: gen.PathoCount(), Exhaustive: true, Desc: "deep trees (nesting to depth 2000+)", Batch: 8},
 	}
 }
